@@ -134,6 +134,21 @@ def decodeNonAscii : Bytes → Option (Nat × Nat)
     else none
   | [] => none
 
+/-- The runes `for _, c := range s` yields for a Go string `s` (utf8.DecodeRuneInString at every
+position): an ASCII byte is itself, a well-formed shortest-form encoding is decoded, any other byte
+is U+FFFD and consumes one byte.  (Meaning of `range` over a string for the Go→Lean translation of
+imports/build.go; `n` bounds the number of runes by the number of bytes.) -/
+def runesAux : Nat → Bytes → List Int
+  | 0, _ => []
+  | _, [] => []
+  | n+1, b :: rest =>
+    if b < 0x80 then (b.toNat : Int) :: runesAux n rest else
+    match decodeNonAscii (b :: rest) with
+    | none => 0xFFFD :: runesAux n rest
+    | some (r, w) => (r : Int) :: runesAux n (rest.drop (w - 1))
+
+def runes (s : Bytes) : List Int := runesAux s.length s
+
 /-- ASCII part of `unicode.IsLetter(c) || unicode.IsDigit(c) || c == '_' || c == '.'`. -/
 def asciiTagByte (b : UInt8) : Bool :=
   (65 ≤ b && b ≤ 90) || (97 ≤ b && b ≤ 122) || (48 ≤ b && b ≤ 57) || b = 95 || b = 46
